@@ -34,7 +34,7 @@ static void src_rec(const volatile void *addr, int op, const char *func){ if(add
   char k = !strcmp(func,"_dispatch_lane_suspend") ? 's' : !strcmp(func,"_dispatch_lane_resume") ? 'r' : 0; if(!k) return;
   unsigned long i=atomic_fetch_add(&ntl,1); if(i<MAXT){ tlog[i].it=g_it; tlog[i].k=k; } }
 static void src_watch(dispatch_io_t ch){ dispatch_source_t s=_dispatch_verif_io_stream_source(ch,0); SRC = s ? _dispatch_verif_queue_state_addr((dispatch_queue_t)s) : NULL;
-  if(SRC){ unsigned long i=atomic_fetch_add(&ntl,1); if(i<MAXT){ tlog[i].it=g_it; tlog[i].k='A'; } } }       // 'A': recording begins, the source is armed
+  if(SRC){ unsigned long i=atomic_fetch_add(&ntl,1); if(i<MAXT){ tlog[i].it=g_it; tlog[i].k='A'; } } }       // 'A': recording begins
 // the thread that runs the stream's handler for a fired readiness source is delayed for a moment when it suspends the source (its
 // first step): the stop and the second channel's reads are then queued behind it before it asks for the handler again
 typedef void (*cb_t)(const volatile void *addr, unsigned size, int op, uint64_t o, uint64_t n, const char *func, int line);
